@@ -63,13 +63,16 @@ class TypeScriptFunctionExtractor(TypeScriptBaseAnalyzer):
         Returns:
             Tuple of (function_node, function_name) or None
         """
-        if node.type == "function_declaration":
+        if node.type in ("function_declaration", "generator_function_declaration"):
             return self._extract_function_declaration(node)
         if node.type == "arrow_function":
             return self._extract_arrow_function(node)
         if node.type == "method_definition":
             return self._extract_method_definition(node)
-        if node.type in ("function", "function_expression") and node.is_named:
+        if (
+            node.type in ("function", "function_expression", "generator_function")
+            and node.is_named
+        ):
             return self._extract_function_expression(node)
         return None
 
